@@ -335,6 +335,7 @@ func (fx *FnExec) checkAccess(st *State, loc *Loc, write bool, pos token.Pos) {
 	if b, ok := e.refBirth[loc.Ref]; ok && b > 0 {
 		fresh = true // object allocated by this activation: not yet shared
 	}
+	mine := sel(e.heapGet(st, e.keyMine()), loc.Ref) // the same, decided by the solver (aliases through the heap)
 	switch p.Class {
 	case "guarded_by":
 		if fresh {
@@ -361,23 +362,17 @@ func (fx *FnExec) checkAccess(st *State, loc *Loc, write bool, pos token.Pos) {
 				}
 			}
 		}
-		e.addObl("race", "guard:"+name, tags, st, goal, pos)
+		e.addObl("race", "guard:"+name, tags, st, or(goal, mine), pos)
 	case "atomic":
 		if fresh {
 			return
 		}
-		o := e.addObl("race", "atomic:"+name, tags, st, "false", pos)
-		if o != nil {
-			o.Static = "plain access to a field declared atomic"
-		}
+		e.addObl("race", "atomic:"+name, tags, st, mine, pos)
 	case "immutable":
 		if write && !fresh {
 			isCons := fx.con != nil && fx.con.Constructor
 			if !isCons {
-				o := e.addObl("race", "immutable:"+name, tags, st, "false", pos)
-				if o != nil {
-					o.Static = "write to an immutable field outside a constructor"
-				}
+				e.addObl("race", "immutable:"+name, tags, st, mine, pos)
 			}
 		}
 	case "init_once":
@@ -394,7 +389,7 @@ func (fx *FnExec) checkAccess(st *State, loc *Loc, write bool, pos token.Pos) {
 					goal = or(goal, eq(sel(e.heapGet(st, hl.key), hl.ref), "1"))
 				}
 			}
-			e.addObl("race", "initonce:"+name, tags, st, goal, pos)
+			e.addObl("race", "initonce:"+name, tags, st, or(goal, mine), pos)
 		}
 	case "write_once":
 		// written once (from nil) under the lock; an unlocked read is fine once the field was seen non-nil
